@@ -47,6 +47,44 @@ def c01_layouts(tier, seed):
     return Ls
 
 
+def surface_layouts(access="rw", enums=True):
+    """declaration surface that is legal today but unusual: field names / array lengths reaching the
+    attribute macro through macro_rules! fragments, struct-level doc comments that mention trait names,
+    `r, w` written as two access specifiers, one list spread over a bits(..) and a bit(..) attribute"""
+    Ls = []
+    acc2 = "r,w" if access == "rw" else ""
+    for W in (32, 24, 128, 8):
+        top = W - 1
+        fs = [Field("lo", T_uint(3), [(0, 3)], None, access), Field("flag", T_bool(), [(top, 1)], None, access),
+              Field("arr", T_uint(2), [(3, 2)], (2, 2, False), access)]
+        L = Layout(W, fs, default=("lit", 1 << (W - 2), "hex"), tag=f"declaration stamped out by macro_rules! with field names as $f:ident and the array length as $n:expr on u{W}")
+        L.macro_idents = True
+        Ls.append(L)
+        # (`debug` cannot be combined with array fields on the unmodified macro, so a second one without arrays)
+        L = Layout(W, [Field("lo", T_uint(3), [(0, 3)], None, access), Field("flag", T_bool(), [(top, 1)], None, access)], default=("lit", 1 << (W - 2), "hex"), debug=True, tag=f"debug declaration stamped out by macro_rules! with field names as $f:ident on u{W}")
+        L.macro_idents = True
+        Ls.append(L)
+        fs = [Field("lo", T_int(8) if W >= 16 else T_uint(3), [(0, 8 if W >= 16 else 3)], None, access), Field("hi", T_uint(2), [(top - 1, 2)], None, access)]
+        L = Layout(W, fs, default=("lit", 3, "dec"), debug=True, tag=f"struct doc comment mentioning Debug, Copy, Clone and Default on u{W}")
+        L.struct_doc = "DBG register: Debug MCU configuration; holds a Copy or Clone of the Default state (PartialEq, Eq)"
+        Ls.append(L)
+        fs = [Field("m", T_uint(4), [(top - 4, 4)], None, access, access_form=acc2), Field("n", T_bool(), [(0, 1)], None, access, access_form="w,r" if access == "rw" else ""),
+              Field("a", T_uint(1), [(1, 1)], (3, 1, False), access, access_form=acc2, form="bits1")]
+        Ls.append(Layout(W, fs, tag=f"access written as two specifiers (r, w / w, r) on u{W}"))
+        if W >= 16:
+            fs = [Field("v", T_uint(5), [(4, 3), (0, 1), (9, 1)], None, access, list_split=1, list_split_other_kw=True),
+                  Field("w", T_uint(4), [(12, 1), (14, 1), (10, 2)], None, access, list_split=2, list_split_other_kw=True, form="bit_list")]
+            Ls.append(Layout(W, fs, tag=f"one list spread over a bits([..]) and a bit([..]) attribute (both orders) on u{W}"))
+    if enums:
+        e = full_enum("E2", 2)
+        o = sparse_enum("E3N", 3, [0, 1, 5, 7], None)
+        fs = [Field("mode", FType("enum", 2, e), [(0, 2)], (4, 2, False), access, access_form=acc2), Field("opt", FType("optenum", 3, o), [(8, 3)], (3, 4, True), access), Field("one", FType("enum", 2, e), [(30, 2)], None, access, access_form="w,r" if access == "rw" else "")]
+        L = Layout(32, fs, aux=[e, o], default=("lit", 0, "dec"), tag="enum-typed arrays whose length is a macro_rules! $n:expr fragment, access as `r, w`")
+        L.macro_idents = True
+        Ls.append(L)
+    return Ls
+
+
 def c01_context_layouts(tier, access="r"):
     """the same field alone in its struct, as the highest declared field below reserved bits, and with
     another field declared above / below it: a getter must not depend on what else is declared"""
@@ -100,7 +138,7 @@ def c01_context_layouts(tier, access="r"):
 
 
 def plan_c01(tier, seed):
-    Ls = c01_layouts(tier, seed) + c01_context_layouts(tier)
+    Ls = c01_layouts(tier, seed) + c01_context_layouts(tier) + surface_layouts()
     us = units_from(Ls, lambda L: [H.h_get(L, f, "C01") for f in L.fields])
     # negative controls on three real layouts (first, middle, last)
     for k in (0, len(us) // 2, len(us) - 1):
@@ -220,7 +258,7 @@ def c02_extra_layouts(tier):
 def plan_c02(tier, seed):
     Ls = c02_layouts(tier, seed) + [L for k, L in enumerate(c01_context_layouts(tier, access="rw")) if k % 2 == 0]
     nplain = len(Ls)
-    Ls = Ls + c02_extra_layouts(tier)
+    Ls = Ls + c02_extra_layouts(tier) + surface_layouts()
     us = units_from(Ls, lambda L: [H.h_set(L, f, "C02") for f in L.fields])
     # a second write to the same field must win completely: on the list/array extras and on a slice
     # of the plain corpus (every 5th layout, first field)
@@ -356,7 +394,7 @@ def c03_layouts(tier, seed):
 
 
 def plan_c03(tier, seed):
-    Ls = c03_layouts(tier, seed)
+    Ls = c03_layouts(tier, seed) + [L for L in surface_layouts() if any(f.array for f in L.fields)]
     us = units_from(Ls, lambda L: sum([field_harnesses(L, f, "C03") for f in L.fields], []))
     add_controls(us, "C03", kinds=("oob", "get", "set"))
     return Plan(us, title="arrays: element i at lo+i*stride, bounds-checked", chunk=230 if tier == "quick" else 600,
@@ -466,7 +504,7 @@ def c04_permutation_layouts(tier):
 
 
 def plan_c04(tier, seed):
-    Ls = c04_layouts(tier, seed) + c04_straddle_layouts() + c04_permutation_layouts(tier) + bit_keyword_list_layouts()
+    Ls = c04_layouts(tier, seed) + c04_straddle_layouts() + c04_permutation_layouts(tier) + bit_keyword_list_layouts() + [L for L in surface_layouts(enums=False) if any(len(f.ranges) > 1 for f in L.fields)]
     # the second-write harness on every structured layout and on every other random one (quick)
     def hs(L, k=[0]):
         k[0] += 1
@@ -683,7 +721,7 @@ def c06_optional_layouts(tier):
 
 
 def plan_c06(tier, seed):
-    Ls = c06_layouts(tier, seed)
+    Ls = c06_layouts(tier, seed) + surface_layouts()
     us = []
     for i, L in enumerate(Ls):
         u = Unit(f"l{i:05d}", L.decl(), [h_c06(L)], {"layout": L, "sig": L.sig(), "tag": L.tag, "valid": True})
@@ -984,7 +1022,7 @@ def c08_layouts(tier, seed):
 
 
 def plan_c08(tier, seed):
-    Ls = c08_layouts(tier, seed)
+    Ls = c08_layouts(tier, seed) + [L for L in surface_layouts() if L.aux]
     us = units_from(Ls, lambda L: sum([field_harnesses(L, f, "C08", oob=False) for f in L.fields], []))
     add_controls(us, "C08", kinds=("get", "set", "get"))
     return Plan(us, title="enum / custom typed fields", chunk=220 if tier == "quick" else 600,
@@ -1356,7 +1394,7 @@ def many_field_layouts():
 
 
 def plan_c13(tier, seed):
-    Ls = [L for L in c13_layouts(tier, seed) + many_field_layouts() if L.builder_expected()]
+    Ls = [L for L in c13_layouts(tier, seed) + many_field_layouts() + surface_layouts() if L.builder_expected()]
     us = units_from(Ls, lambda L: [h_builder(L)])
     for k in (0, len(us) // 2, len(us) - 1):
         L = us[k].meta["layout"]
@@ -1976,7 +2014,7 @@ def c09_accept_corpus(tier, seed):
         if W >= 8:
             Ls.append(Layout(W, [Field("f", T_uint(4), [(0, 4)], (2, 4, True), "rw")], tag=f"stride == width on u{W}"))
             Ls.append(Layout(W, [Field("f", T_uint(6), [(1, 6)], None, "r"), Field("g", T_int(8), [(W - 8, 8)], None, "w"), Field("n", T_bool(), [(0, 1)], None, "")], tag=f"access r / w / none on u{W}"))
-    Ls += list_syntax_layouts()
+    Ls += list_syntax_layouts() + surface_layouts()
     k = 1 if tier != "quick" else 4
     for fn in (c01_layouts, c02_layouts, c03_layouts, c04_layouts, c05_layouts, c06_layouts, c08_layouts, c12_layouts, c13_layouts, c16_layouts):
         ls = fn("quick", 0)
@@ -2133,7 +2171,7 @@ def plan_c14(tier, seed):
     # plus the builder-eligible random layouts of C13 (eligible => offered) and C12's overlapping ones (not eligible)
     c13 = c13_layouts("quick", 0)
     extra = [(L, "") for L in (c13[:25] + c13[-8:] if tier == "quick" else c13_layouts("thorough", seed)[:200] + c13[-8:])]
-    extra += [(L, "") for L in many_field_layouts()]
+    extra += [(L, "") for L in many_field_layouts() + surface_layouts()]
     extra += [(L, "overlapping-random-layout") for L in c12_layouts("quick", 0) if not L.builder_expected()][: (12 if tier == "quick" else 60)]
     for W in (8, 32, 24, 128):
         h = W // 2
@@ -2485,7 +2523,7 @@ def c19_ref_module(L):
 
 
 def plan_c19(tier, seed):
-    Ls = c19_layouts(tier, seed)
+    Ls = c19_layouts(tier, seed) + [L for L in surface_layouts() if L.debug and L.base in (32, 24)]
     us = []
     native = []
     rnd = random.Random(seed + 190)
